@@ -40,7 +40,7 @@ def model(typ, acc, nalpha, maxobs, dev=(), emit=True):
     cfg = tlc.cfg_text(constants={"Type": tlc.tla(typ), "Acc": tlc.tla(bool(acc)), "NChoice": str(NCHOICE), "NSets": "3",
                                   "MaxObs": str(maxobs)},
                        defs=defs, invariants=["PartitionLaw", "Shape", "StatsLaw", "NoSharing"],
-                       properties=["OperandUnchanged"], constraints=["Bound", "MiscGuard"],
+                       properties=["OperandUnchanged"], constraints=["Bound"],
                        action_constraints=["Emit"] if emit else [])
     return cfg, defs
 
@@ -69,6 +69,8 @@ def compare_result(r, exp, typ, acc):
     f = exp["f"]
     d = r.to_dict() if hasattr(r, "to_dict") else r._to_dict()
     if typ == "MISC":
+        if exp["n"] == 0:
+            return bad
         if not eq(d["value"], fr(f["value"])):
             bad.append(f"value {d['value']} != last observation {fr(f['value'])}")
         if not eq(r.get_result(), fr(f["value"])):
@@ -79,16 +81,18 @@ def compare_result(r, exp, typ, acc):
     if typ == "CHOICE":
         if list(np.asarray(d["value"]).astype(int)) != list(f["value"]):
             bad.append(f"choice counts {list(d['value'])} != {f['value']}")
-        got = r.get_result()
-        want = [c / f["n"] for c in f["value"]]
-        if not np.allclose(got, want, rtol=0, atol=1e-12):
-            bad.append(f"get_result() {got} != {want}")
+        if f["n"] > 0:
+            got = r.get_result()
+            want = [c / f["n"] for c in f["value"]]
+            if not np.allclose(got, want, rtol=0, atol=1e-12):
+                bad.append(f"get_result() {got} != {want}")
     else:
         if not eq(d["value"], fr(f["value"])):
             bad.append(f"value {d['value']} != {fr(f['value'])}")
-        want = fr(f["value"]) / fr(f["total"]) if typ == "RATIO" else fr(f["value"])
-        if not eq(r.get_result(), want):
-            bad.append(f"get_result() {r.get_result()} != {want}")
+        if f["n"] > 0 and (typ != "RATIO" or fr(f["total"]) != 0):
+            want = fr(f["value"]) / fr(f["total"]) if typ == "RATIO" else fr(f["value"])
+            if not eq(r.get_result(), want):
+                bad.append(f"get_result() {r.get_result()} != {want}")
     if not eq(d["total"], fr(f["total"])):
         bad.append(f"total {d['total']} != {fr(f['total'])}")
     if not eq(d["result_sum"], fr(f["sum"])):
@@ -109,7 +113,28 @@ def compare_result(r, exp, typ, acc):
     return bad
 
 
+class _Watchdog(Exception):
+    pass
+
+
+def _alarm(*_):
+    raise _Watchdog()
+
+
 def run_path(job):
+    """(steps conforming, first discrepancy or None); a path that does not finish in 20 s is a violation"""
+    import signal
+    signal.signal(signal.SIGALRM, _alarm)
+    signal.alarm(20)
+    try:
+        return _run_path(job)
+    except _Watchdog:
+        return 0, {"step": -1, "op": {"op": "?"}, "what": "program did not terminate within 20 s", "fid": None}
+    finally:
+        signal.alarm(0)
+
+
+def _run_path(job):
     typ, acc, alpha, edges = job
     from pyphysim.simulations.results import Result, SimulationResults
     tc = type_code(typ)
@@ -119,7 +144,9 @@ def run_path(job):
         op = e["op"]
         try:
             s = op["s"] - 1
-            if op["op"] in ("AddNew", "UpdateLast"):
+            if op["op"] == "AddEmpty":
+                sets[s].add_result(Result(NAME, tc, accumulate_values=acc, choice_num=NCHOICE if typ == "CHOICE" else None))
+            elif op["op"] in ("AddNew", "UpdateLast"):
                 ob = alpha[op["k"] - 1]
                 v, t = num(ob["v"]), num(ob["t"])
                 if op["op"] == "AddNew":
@@ -209,10 +236,12 @@ def run(ctx):
     cfgs = []
     for typ in ("SUM", "RATIO", "CHOICE", "MISC"):
         for acc in (True, False):
+            if not thorough and not acc and typ != "RATIO":
+                continue      # quick: the accumulate-off variants are subsumed except for one representative
             if thorough:
                 nalpha, maxobs = 3, 4
             else:
-                nalpha, maxobs = (2, 4) if (acc and typ in ("SUM", "RATIO")) else (2, 3)
+                nalpha, maxobs = 2, 3
             cfgs.append((typ, acc, nalpha, maxobs))
     with ThreadPoolExecutor(8) as ex:
         futs = [ex.submit(lambda c=c: tlc.run(MODULE, *model(*c)[:1], defs=model(*c)[1], coverage=True, timeout=3000)) for c in cfgs]
@@ -221,7 +250,7 @@ def run(ctx):
         devf.result()
     for c, r in zip(cfgs, runs):
         explore(ctx, c[0], c[1], c[2], r)
-    ctx.require_actions(["AddNew", "UpdateLast", "MergeRes", "MergeAll", "AppendAll"])
+    ctx.require_actions(["AddNew", "AddEmpty", "UpdateLast", "MergeRes", "MergeAll", "AppendAll"])
     ctx.exhaustive = True
     from . import c06_combine
     c06_combine.run(ctx)
